@@ -303,7 +303,12 @@ impl<T: AsRef<[u8]> + AsMut<[u8]>> NdiscOption<T> {
     #[inline]
     pub fn set_link_layer_addr(&mut self, addr: RawHardwareAddress) {
         let data = self.buffer.as_mut();
-        data[2..2 + addr.len()].copy_from_slice(addr.as_bytes())
+        data[2..2 + addr.len()].copy_from_slice(addr.as_bytes());
+        // The option is padded to a multiple of 8 octets; the padding must be zero.
+        let padded_len = (2 + addr.len()).div_ceil(8) * 8;
+        if let Some(padding) = data.get_mut(2 + addr.len()..padded_len) {
+            padding.fill(0);
+        }
     }
 }
 
@@ -569,6 +574,8 @@ impl<'a> Repr<'a> {
                 opt.set_option_type(Type::RedirectedHeader);
                 opt.set_data_len((8 + header.buffer_len() + data.len()).div_ceil(8) as u8);
                 let mut packet = &mut opt.data_mut()[field::REDIRECTED_RESERVED.end - 2..];
+                // The option is padded to a multiple of 8 octets; the padding must be zero.
+                packet[header.buffer_len() + data.len()..].fill(0);
                 let mut ip_packet = Ipv6Packet::new_unchecked(&mut packet);
                 header.emit(&mut ip_packet);
                 ip_packet.payload_mut().copy_from_slice(data);
@@ -576,6 +583,8 @@ impl<'a> Repr<'a> {
             Repr::Mtu(mtu) => {
                 opt.set_option_type(Type::Mtu);
                 opt.set_data_len(1);
+                // Octets 2..4 are reserved and must be zero.
+                opt.buffer.as_mut()[field::LENGTH + 1..field::MTU.start].fill(0);
                 opt.set_mtu(mtu);
             }
             Repr::Unknown {
